@@ -22,7 +22,8 @@ EXPLANATION = (
     'methods available on every feature class.  Exceptions outside these classes (e.g. recursion depth) are not decided.'
     ' Third round: a literal table indexed by a computed value must be total (R14.6 partial-lookup).'
     " Fifth round: feature members read on the matcher's per-variable tables are judged like reads on .feature."
-    ' Seventh round: one-shot iterators bound at module level (R14.1); reading a binding back is one substitution step (instantiation rule of C03 / C04 / C06).')
+    ' Seventh round: one-shot iterators bound at module level (R14.1); reading a binding back is one substitution step (instantiation rule of C03 / C04 / C06).'
+    ' Eighth round: no function of the grammar modules asks depccg.lang for the selected language while it runs (R14.1).')
 TRUSTED = ['CPython ast', 'sa/pysym.py path walker', 'frozen dataclasses (checked by C13)', 'rule table DESIGN.md C14']
 
 EN, JA, UNI, CAT = rg.EN, rg.JA, ru.UNI, 'depccg/cat.py'
